@@ -12,6 +12,9 @@
 (*                             to a sender OnMsg was called with, in order *)
 (*   EmbeddedMismatchDropped   an envelope embedding another sender is not *)
 (*                             handed over                                 *)
+(*   NonMemberRejected         a hand-over attributed to a non-participant *)
+(*                             is at once followed by the library's        *)
+(*                             rejection (it got no participant's index)   *)
 (*   ProbeNoEffect/RunCompletes/KeyAgreement   outcome of the run          *)
 (*   SignedDigestIsRequested   returned signature verifies for the digest  *)
 (*                             asked for and for no other message          *)
@@ -30,17 +33,18 @@ VARIABLES l, tid, hdr,
           obs,     \* observed classifications {[url, r, bc]}
           ons,     \* party -> sequence of OnMsg calls [from, acc, emb]
           hs,      \* party -> sequence of attributed senders handed to the library
+          pw,      \* party -> what its protocol goroutine logged, in order: attributed sender of a hand-over | -1 for a warning
           rets,    \* {<<p, ok>>}
           pks,     \* {<<p, key>>}
           sigs,    \* parties whose signature was checked
           pan, viol, drift
 
-tvars == <<vars, l, tid, hdr, emits, obs, ons, hs, rets, pks, sigs, pan, viol, drift>>
+tvars == <<vars, l, tid, hdr, emits, obs, ons, hs, pw, rets, pks, sigs, pan, viol, drift>>
 
 OB == 32
 Rng(s) == {s[i] : i \in DOMAIN s}
 Line == Trace[l]
-NoHdr == [ad |-> "", ph |-> "", ids |-> <<>>, thr |-> 0, dg |-> <<>>, pk |-> "", pp |-> 0, pa |-> 0, pb |-> 0, pf |-> FALSE, purl |-> ""]
+NoHdr == [ad |-> "", ph |-> "", ids |-> <<>>, thr |-> 0, dg |-> <<>>, pk |-> "", pp |-> 0, pa |-> 0, pb |-> 0, pf |-> FALSE, purl |-> "", pm |-> 0]
 Ids == Rng(hdr.ids)
 Get(f, k, d) == IF k \in DOMAIN f THEN f[k] ELSE d
 Put(f, k, v) == [x \in DOMAIN f \cup {k} |-> IF x = k THEN v ELSE f[x]]
@@ -54,7 +58,7 @@ RECURSIVE AccFroms(_)
 AccFroms(s) == IF s = <<>> THEN <<>> ELSE (IF s[1].acc THEN <<s[1].from>> ELSE <<>>) \o AccFroms(Tail(s))
 Mismatch(s) == Cardinality({i \in DOMAIN s : s[i].emb # 0 /\ s[i].emb # s[i].from})
 
-TInit == /\ Init /\ l = 1 /\ tid = -1 /\ hdr = NoHdr /\ emits = <<>> /\ obs = {} /\ ons = <<>> /\ hs = <<>>
+TInit == /\ Init /\ l = 1 /\ tid = -1 /\ hdr = NoHdr /\ emits = <<>> /\ obs = {} /\ ons = <<>> /\ hs = <<>> /\ pw = <<>>
          /\ rets = {} /\ pks = {} /\ sigs = {} /\ pan = FALSE /\ viol = {} /\ drift = ""
 
 \* ---- reporting ----------------------------------------------------------------------------------------------------------
@@ -77,8 +81,8 @@ Reset ==
   /\ Line.e = "reset"
   /\ tid' = Line.t
   /\ hdr' = [ad |-> Line.ad, ph |-> Line.ph, ids |-> Line.ids, thr |-> Line.thr, dg |-> Line.dg, pk |-> Line.pk, pp |-> Line.pp,
-             pa |-> Line.pa, pb |-> Line.pb, pf |-> Line.pf, purl |-> Line.purl]
-  /\ emits' = <<>> /\ obs' = {} /\ ons' = <<>> /\ hs' = <<>> /\ rets' = {} /\ pks' = {} /\ sigs' = {} /\ pan' = FALSE
+             pa |-> Line.pa, pb |-> Line.pb, pf |-> Line.pf, purl |-> Line.purl, pm |-> Line.pm]
+  /\ emits' = <<>> /\ obs' = {} /\ ons' = <<>> /\ hs' = <<>> /\ pw' = <<>> /\ rets' = {} /\ pks' = {} /\ sigs' = {} /\ pan' = FALSE
   /\ viol' = {} /\ drift' = ""
 
 EmitEv ==
@@ -88,7 +92,7 @@ EmitEv ==
          lib == IF c.known THEN (CHOOSE x \in Tbl : x.url = Line.url).lib ELSE FALSE IN
      SetDrift(IF ~c.known THEN "emitted type is not in the spec table of this phase: " \o Line.url
               ELSE IF lib # Line.rb THEN "library routes differently from the spec table: " \o Line.url ELSE "")
-  /\ UNCHANGED <<tid, hdr, obs, ons, hs, rets, pks, sigs, pan, viol>>
+  /\ UNCHANGED <<tid, hdr, obs, ons, hs, pw, rets, pks, sigs, pan, viol>>
 
 ClsEv ==
   /\ Line.e = "cls"
@@ -98,7 +102,7 @@ ClsEv ==
      /\ Report({<<"ClassifiedAsRouted", Line.url, ~Line.err /\ Line.bc = em.rb>>})
      /\ SetDrift(IF Line.m \notin DOMAIN emits THEN "classification of an unrecorded message"
                  ELSE IF c.known /\ (c.round # Line.r \/ c.bcast # Line.bc) THEN "classification differs from the spec table: " \o Line.url ELSE "")
-  /\ UNCHANGED <<tid, hdr, emits, ons, hs, rets, pks, sigs, pan>>
+  /\ UNCHANGED <<tid, hdr, emits, ons, hs, pw, rets, pks, sigs, pan>>
 
 \* ClassifyMsg on a hand-built envelope: the routing flag is the spec's transcription of the library's message definitions
 TclsEv ==
@@ -113,27 +117,28 @@ TclsEv ==
                  ELSE IF Line.k = "unknown" /\ (Line.err \/ Line.r # 0 \/ Line.bc) THEN "unknown type not classified as (0, point-to-point)"
                  ELSE IF Line.k = "garbage" /\ ~Line.err /\ (Line.r # 0 \/ Line.bc) THEN "garbage classified as a protocol message"
                  ELSE "")
-  /\ UNCHANGED <<tid, hdr, emits, ons, hs, rets, pks, sigs, pan>>
+  /\ UNCHANGED <<tid, hdr, emits, ons, hs, pw, rets, pks, sigs, pan>>
 
 OnEv ==
   /\ Line.e = "on"
   /\ ons' = Put(ons, Line.p, Append(Get(ons, Line.p, <<>>), [from |-> Line.from, acc |-> Line.acc, emb |-> Line.emb]))
-  /\ UNCHANGED <<tid, hdr, emits, obs, hs, rets, pks, sigs, pan, viol, drift>>
+  /\ UNCHANGED <<tid, hdr, emits, obs, hs, pw, rets, pks, sigs, pan, viol, drift>>
 
 HandedEv ==
   /\ Line.e = "handed"
   /\ hs' = Put(hs, Line.p, Append(Get(hs, Line.p, <<>>), Line.from))
+  /\ pw' = Put(pw, Line.p, Append(Get(pw, Line.p, <<>>), Line.from))
   /\ UNCHANGED <<tid, hdr, emits, obs, ons, rets, pks, sigs, pan, viol, drift>>
 
 RetEv ==
   /\ Line.e = "ret"
   /\ rets' = rets \cup {<<Line.p, Line.ok>>}
-  /\ UNCHANGED <<tid, hdr, emits, obs, ons, hs, pks, sigs, pan, viol, drift>>
+  /\ UNCHANGED <<tid, hdr, emits, obs, ons, hs, pw, pks, sigs, pan, viol, drift>>
 
 PkEv ==
   /\ Line.e = "pk"
   /\ pks' = pks \cup {<<Line.p, Line.pkh>>}
-  /\ UNCHANGED <<tid, hdr, emits, obs, ons, hs, rets, sigs, pan, viol, drift>>
+  /\ UNCHANGED <<tid, hdr, emits, obs, ons, hs, pw, rets, sigs, pan, viol, drift>>
 
 \* a signature was RETURNED by Sign: it must verify (standard verifier) for the requested digest and for no other message
 SigEv ==
@@ -147,18 +152,23 @@ SigEv ==
                       /\ \A o \in others : o.v = StdAccepts(hdr.ad, o.d, sg, OB) IN
      /\ Report({<<"SignedDigestIsRequested", DigestClass(hdr.ad, d), Line.err = "" /\ Line.vr /\ okOthers>>})
      /\ SetDrift(IF ~predicted THEN "signature verdicts differ from the digest model" ELSE "")
-  /\ UNCHANGED <<tid, hdr, emits, obs, ons, hs, rets, pks, pan>>
+  /\ UNCHANGED <<tid, hdr, emits, obs, ons, hs, pw, rets, pks, pan>>
 
 PanicEv ==
   /\ Line.e = "panic"
   /\ pan' = TRUE
   /\ Report({<<"NoPanic", Line.where, FALSE>>})
-  /\ UNCHANGED <<tid, hdr, emits, obs, ons, hs, rets, pks, sigs, drift>>
+  /\ UNCHANGED <<tid, hdr, emits, obs, ons, hs, pw, rets, pks, sigs, drift>>
+
+WarnEv ==
+  /\ Line.e = "warn"
+  /\ pw' = IF Line.path = "proto" THEN Put(pw, Line.p, Append(Get(pw, Line.p, <<>>), -1)) ELSE pw
+  /\ UNCHANGED <<tid, hdr, emits, obs, ons, hs, rets, pks, sigs, pan, viol, drift>>
 
 OtherEv ==
-  /\ Line.e \in {"warn", "setup"}
-  /\ SetDrift(IF Line.e = "setup" THEN "stored share data could not be loaded" ELSE "")
-  /\ UNCHANGED <<tid, hdr, emits, obs, ons, hs, rets, pks, sigs, pan, viol>>
+  /\ Line.e = "setup"
+  /\ SetDrift("stored share data could not be loaded")
+  /\ UNCHANGED <<tid, hdr, emits, obs, ons, hs, pw, rets, pks, sigs, pan, viol>>
 
 EndEv ==
   /\ Line.e = "end"
@@ -169,6 +179,9 @@ EndEv ==
                       /\ hdr.ph = "sign" => Ids \subseteq sigs
          parties == DOMAIN ons \cup DOMAIN hs
          aligned == \A p \in parties : Get(hs, p, <<>>) = AccFroms(Get(ons, p, <<>>))
+         \* hand-overs attributed to a non-participant and whether the library's rejection follows at once
+         nonMember(p) == {i \in DOMAIN Get(pw, p, <<>>) : pw[p][i] >= 0 /\ pw[p][i] \notin Ids}
+         rejected(p, i) == i < Len(pw[p]) /\ pw[p][i + 1] = -1
          mon == IF hdr.pk = "" THEN "RunCompletes" ELSE "ProbeNoEffect" IN
      /\ Report({
           <<"DistinctRounds", hdr.ph, \A x, y \in obs : (x.bc /\ y.bc /\ x.url # y.url /\ SamePhase(x.url, y.url)) => x.r # y.r>>,
@@ -176,6 +189,7 @@ EndEv ==
           <<"SenderAttribution", hdr.ph, \A p \in parties : IsSubseq(Get(hs, p, <<>>), Froms(Get(ons, p, <<>>)))>>,
           <<"EmbeddedMismatchDropped", hdr.ph,
                \A p \in parties : Len(Get(hs, p, <<>>)) + Mismatch(Get(ons, p, <<>>)) <= Len(Get(ons, p, <<>>))>>,
+          <<"NonMemberRejected", hdr.ph, \A p \in DOMAIN pw : \A i \in nonMember(p) : rejected(p, i)>>,
           <<"KeyAgreement", hdr.ph, Cardinality({k[2] : k \in pks}) <= 1>>,
           <<mon, hdr.ph, (proto /\ Line.setup /\ ~refuses /\ hdr.pk # "replay") => completed>>,
           <<"NoPanic", "end", ~pan>>})
@@ -185,11 +199,12 @@ EndEv ==
                  ELSE IF proto /\ ~Line.fired THEN "the probe was never injected"
                  ELSE "")
      /\ PrintT(<<"END", ToJson([t |-> tid, drift |-> drift', completed |-> completed, aligned |-> aligned, refuses |-> refuses,
-                                obs |-> obs, nh |-> Cardinality(DOMAIN hs)])>>)
-  /\ UNCHANGED <<tid, hdr, emits, obs, ons, hs, rets, pks, sigs, pan>>
+                                obs |-> obs, nh |-> Cardinality(DOMAIN hs),
+                                cal |-> \E p \in DOMAIN pw : \E i \in nonMember(p) : rejected(p, i)])>>)
+  /\ UNCHANGED <<tid, hdr, emits, obs, ons, hs, pw, rets, pks, sigs, pan>>
 
 TNext == /\ l <= Len(Trace)
          /\ l' = l + 1
          /\ UNCHANGED vars
-         /\ \/ Reset \/ EmitEv \/ ClsEv \/ TclsEv \/ OnEv \/ HandedEv \/ RetEv \/ PkEv \/ SigEv \/ PanicEv \/ OtherEv \/ EndEv
+         /\ \/ Reset \/ EmitEv \/ ClsEv \/ TclsEv \/ OnEv \/ HandedEv \/ RetEv \/ PkEv \/ SigEv \/ PanicEv \/ WarnEv \/ OtherEv \/ EndEv
 =============================================================================
